@@ -64,7 +64,7 @@ Definition check_case (c : case) : list N :=
   match c with
   | CSkip => []
   | CBBox d bb pad lg root_sw dbl view obs_l obs_i exact in_model has_legend =>
-      flag (negb in_model || rect_eqb (bbox d) bb) 1
+      flag (negb in_model || rect_eqb (bbox d) bb || rect_eqb (bbox_fixed d) bb) 1
       ++ flag (match view with
                | Some v => has_legend || view4_eqb (viewbox bb pad lg root_sw dbl) v
                | None => true end) 1
